@@ -614,6 +614,19 @@ class Gen:
         yield {"k": "usys_get", "name": name, "dim": r.choice(self.USYS_DIMS), "store": self.store()}
         yield {"k": "base", "x": x, "sys": name, "how": r.choice(["in_base", "convert_to_base", "get_base_equivalent"]),
                "store": False}
+        if r.random() < 0.5:
+            # data of ANOTHER registry reduced to this registry-bound system: the result stays with the data
+            others = [i for i in self.custom_nodes(w) if i != ni % len(w.nodes)]
+            if others and r.random() < 0.6:
+                nj = r.choice(others)
+            else:
+                yield self.g_new_node(w, route=r.choice(["plain", "lut", "deepcopy"]), src=ni)
+                nj = len(w.nodes) - 1
+            yield {"k": "quantity", "node": nj, "h": 0, "v": r.choice(VALUES), "s": r.choice(["m", "km/s", "g*cm/s**2", "kpc"]),
+                   "route": "ctor", "store": True}
+            xj = w.last_stored
+            yield {"k": "base", "x": xj, "sys": name, "how": r.choice(["in_base", "in_base", "get_base_equivalent"]), "store": True}
+            yield {"k": "to", "x": w.last_stored, "s": r.choice(["m", "km", "dimensionless"]), "how": "to", "store": False}
 
     def next(self, w):
         r = self.rng
